@@ -101,7 +101,6 @@ Definition dec_universe : list (string * list string) := [
   ("KeyValueExpr", ["Start"; "Key"; "Colon"; "End"]);
   ("LabeledStmt", ["Start"; "Label"; "Colon"; "End"]);
   ("MapType", ["Start"; "Map"; "Key"; "End"]);
-  ("Package", ["Start"; "End"]);
   ("ParenExpr", ["Start"; "Lparen"; "X"; "End"]);
   ("RangeStmt", ["Start"; "For"; "Key"; "Value"; "Range"; "X"; "End"]);
   ("ReturnStmt", ["Start"; "Return"; "End"]);
